@@ -16,10 +16,12 @@ def build_cases(tier, seed=SEED):
             if special == 'outside': pts = pts[:max(1, len(pts) - 2)] + [ks[0] - F(1, 3), ks[-1] + F(2)]
             if special == 'repeat' and pts: pts = pts + [pts[0]]
             if special == 'single': pts = pts[:1]
+            if special == 'onknot': pts = pts[:2] + [k for k in ks[o + 1:len(ks) - o - 1]][:3]      # abscissae exactly on interior knots (half-open spans)
             body += 'dim %d order %d knots %s | coords %s\n' % (d, o, ' '.join(fr(k) for k in ks), ' '.join(fr(c) for c in pts))
         cases.append((name, hdr + '\n' + body + 'end\n', None))
     for o in range(0, 4):
         add('c17_1d_o%d' % o, [(o, 2, 4, 'irregular', 'outside')]); add('c17_1d_o%d_z' % o, [(o, 1, 3, 'uniform', 'repeat')], zeros=(0,) if o else ())
+    add('c17_1d_onknot', [(2, 3, 3, 'irregular', 'onknot')]); add('c17_2d_onknot', [(1, 2, 2, 'uniform', 'onknot'), (0, 2, 2, 'irregular', 'onknot')], zeros=(1,))
     add('c17_2d', [(1, 1, 3, 'irregular', 'outside'), (2, 0, 3, 'uniform', 'repeat')], zeros=(0, 5))
     add('c17_2d_single', [(0, 2, 3, 'irregular', ''), (1, 1, 3, 'irregular', 'single')], zeros=(1, 2, 3))
     add('c17_2d_onenz', [(1, 0, 3, 'uniform', ''), (1, 0, 3, 'uniform', '')], zeros=(0, 1, 3))
@@ -35,7 +37,7 @@ def run_check(tier):
     cases = build_cases(tier); budget = 30 if tier == 'quick' else 180
     res, fails = fitkit.evaluate(out, 'C17', cases, budget)
     c09.triage(out, 'C17', cases, fails)
-    out.cov['bounds'] = dict(ndim='1..3 (quick) / ..4', orders='0..3 mixed', grids='<= 6 abscissae per axis: unsorted, repeated, outside the knot range, single-point axes', symbolic='every coefficient (a non-zero variable or exactly 0; zero patterns: none, edge, single non-zero)')
+    out.cov['bounds'] = dict(ndim='1..3 (quick) / ..4', orders='0..3 mixed', grids='<= 6 abscissae per axis: unsorted, repeated, outside the knot range, single-point axes, exactly on interior knots', symbolic='every coefficient (a non-zero variable or exactly 0; zero patterns: none, edge, single non-zero)')
     out.cov['translator_validation'] = dict(compared=compared, mismatches=mism, status=vstat)
     out.cov['checker_cmd'] = 'z3 -t:%d000 (QF_NRA)' % budget
     out.cov['trusted_base'] = ['clang-14 IR', 'ir2c.py', 'rt_sym.cpp', 'models/cholmod_model.c', 'harness oracle', 'z3']
